@@ -4,6 +4,7 @@ import RtcVerif.Model.C02KeepSoft
 import RtcVerif.Proofs.C04Store
 import RtcVerif.Proofs.C02Loop
 import RtcVerif.Proofs.C02Fold
+import RtcVerif.Proofs.C04Elem
 import RtcVerif.Proofs.C02KeepSoft
 import RtcVerif.Proofs.C02Example
 import Mathlib.Algebra.Order.Field.Basic
@@ -60,6 +61,29 @@ theorem updateBounds_self_loosens_witness :
     ∧ updateBoundsLegacy ⟨EVal.fin 2, EVal.pinf⟩ ⟨EVal.ninf, EVal.fin 8⟩ true = ⟨EVal.ninf, EVal.fin 8⟩
     ∧ updateBounds ⟨EVal.fin 2, EVal.pinf⟩ ⟨EVal.ninf, EVal.fin 8⟩ true = ⟨EVal.fin 2, EVal.fin 8⟩ := by
   decide
+
+/-! ## the mask code of the conversion is the model (second half of the source-to-Lean tie) -/
+
+/-- `Gen/HardConstraint.lean` (generated from /repo on every run) proves the source of
+    `__goal_hard_constraint`, read element-wise, equal to `C04.hardElemX`; this theorem proves
+    `hardElemX`, called as `__soft_to_hard_constraints` calls it, equal to `hardStep` — under a
+    non-zero nominal and a finite function range for non-critical target goals (validation). -/
+theorem mask_code_is_hardStep (o : HOpts) (g : Goal) (s : Sol) (gj i : Nat) (hnom : g.nomAt 0 ≠ 0)
+    (hr : g.hasTargetBounds = true → g.critical = true ∨
+      ((∃ lo, g.loAt 0 = XVal.e (EVal.fin lo)) ∧ ∃ hi, g.hiAt 0 = XVal.e (EVal.fin hi))) :
+    hardElemX (if g.hasTargetBounds then s.eps gj i + o.violationRelaxation else s.fval g.fk i)
+        (g.mAt 0 i) (g.MAt 0 i) (g.loAt 0) (g.hiAt 0) g.relaxation (g.nomAt 0) g.critical
+        g.hasMin g.hasMax g.hasTargetBounds o.equalityThreshold o.constraintRelaxation (vtX o)
+        o.fixMinimizedValues (s.fval g.fk i)
+      = (XVal.e (hardStep o g s gj i).lo, XVal.e (hardStep o g s gj i).hi) :=
+  hardElemX_eq_hardStep o g s gj i hnom hr
+
+/-- the merge at the end of `__goal_hard_constraint` (`Gen`: `hardMergeGen = mergeNew`) is what
+    `storeOther` stores; `_gp_update_constraint_store` (`updateStoreGen = mergeStored`) is `storeSelf` -/
+theorem merge_code_is_store_ops (st : Store) (k : Key) (new : EIvl) :
+    (storeOther st k new).get k = some (mergeNew EVal.max EVal.min new (st.get k)) ∧
+    (storeSelf st k new).get k = some (mergeStored EVal.max EVal.min (st.get k) new) :=
+  ⟨storeOther_get_eq_mergeNew st k new, storeSelf_get_eq_mergeStored st k new⟩
 
 /-! ## the store only tightens -/
 
